@@ -847,6 +847,33 @@ pub fn u_sent(f: &F) -> Vec<V> {
     }
     out.extend(numeric_family());
     out.extend(name_class_sentences());
+    out.extend(conventional_numbers_family());
+    out
+}
+
+/// Numbers that mean something in NARS implementations (default budgets 0.8 / 0.5, 0.9 / 0.9, default confidence 0.9,
+/// 0.99, 0.01, 0.1, the ends of the interval): every single, pair and triple of them as a budget and every single and pair
+/// as a truth, on every punctuation - a special case for "the default" has exactly such a tuple as its trigger.
+pub fn conventional_numbers_family() -> Vec<V> {
+    let d = [0.0, 0.01, 0.1, 0.5, 0.8, 0.9, 0.99, 1.0];
+    let term = R::pair(Tag::Inh, R::word("a"), R::word("b1"));
+    let mut out = vec![];
+    let mut budgets: Vec<Vec<f64>> = vec![];
+    for &x in &d {
+        budgets.push(vec![x]);
+        for &y in &d {
+            budgets.push(vec![x, y]);
+            for &z in &d {
+                budgets.push(vec![x, y, z]);
+            }
+        }
+    }
+    for p in ALL_P {
+        for (k, b) in budgets.iter().enumerate() {
+            let truth = if matches!(p, P::Judgement | P::Goal) { vec![d[k % 8], d[(k / 8) % 8]] } else { vec![] };
+            out.push(V { term: term.clone(), punct: Some(p), stamp: if k % 2 == 0 { St::Eternal } else { St::Present }, truth, budget: Some(b.clone()) });
+        }
+    }
     out
 }
 
